@@ -17,8 +17,8 @@ RULE = ("Hypothesis-generated param-class shapes (1-4 fields over int, float, st
         "(keywords / instance), call orders and patterns (direct, returned through a second generator, recursive, called inside "
         "another generator), 1 case in 6 with a first call aborted inside the body by an Exception / KeyboardInterrupt / SystemExit / other BaseException. Oracle with a body call counter: equal params => identical Module and one body run; unequal params => "
         "distinct Modules with distinct names; a parent instantiating both exports with one / two module names; names do not change "
-        "after first return; the names are identical in three pristine processes (plain, after 50 unrelated generator calls, after "
-        "allocating 1e5 objects). Non-trivial = pair whose readable renderings are equal or whose values are equal but written "
+        "after first return; the names are identical in four pristine processes (plain, after 50 unrelated generator calls, after "
+        "allocating 1e5 objects, after a sibling generator over the same param-class was called with the same values in the other order). Non-trivial = pair whose readable renderings are equal or whose values are equal but written "
         "differently, or any pass-through / recursive pattern; distinct by canonical case text.")
 ASSUME = ["parameter equality is Python equality of the validated param-class instances, cross-checked with exact values (Fraction for "
           "prefixed numbers); pairs on which the two notions disagree (values inside Hdl21's 1e-20 tolerance) are recorded, not asserted",
@@ -138,6 +138,13 @@ class World:
             return G(params)
         through.__name__ = "H"
         self.H = h.generator(through)
+
+        def sibling(params: P) -> h.Module:
+            m = h.Module()
+            m.add(h.Signal(name="t"))
+            return m
+        sibling.__name__ = "Sib"
+        self.S = h.generator(sibling)  # another generator over the same param-class
 
         def uncached(params: P) -> h.Module:
             counts["U"] = counts.get("U", 0) + 1
@@ -266,6 +273,13 @@ def run_case(case, history="plain"):
         out["notes"].append("param_construction_rejected:" + type(e).__name__)
         out["rejected"] = True
         return out
+    if history == "sibling":
+        # unrelated earlier work of a particular kind: another generator was called with the same parameter values,
+        # the second set first
+        try:
+            w.S(p2); w.S(p1)
+        except Exception:
+            pass
     ex1 = tuple((f.name, exact(w.codes[f.name], getattr(p1, f.name))) for f in dataclasses.fields(p1))
     ex2 = tuple((f.name, exact(w.codes[f.name], getattr(p2, f.name))) for f in dataclasses.fields(p2))
     try:
@@ -295,8 +309,20 @@ def run_case(case, history="plain"):
         w.fail_next = {"Exception": ValueError("body failed"), "KeyboardInterrupt": KeyboardInterrupt(), "SystemExit": SystemExit(3),
                        "custom_base": Stop()}[case["interrupt"]]
         try:
-            call(gens[0], v1, p1, case.get("form1", "kw"))
-            out["notes"].append("interrupted_call_returned")
+            if case.get("interrupt_where") == "nested":
+                # ... the aborted call sits inside another generator's body, which catches the error and completes
+                def tolerant(params: w.P) -> h.Module:
+                    m = h.Module()
+                    try:
+                        m.add(call(gens[0], v1, p1, case.get("form1", "kw"))(), name="inner")
+                    except BaseException:  # noqa
+                        m.add(h.Signal(name="fallback"))
+                    return m
+                tolerant.__name__ = "Tolerant"
+                h.generator(tolerant)(p1)
+            else:
+                call(gens[0], v1, p1, case.get("form1", "kw"))
+                out["notes"].append("interrupted_call_returned")
         except BaseException:  # noqa
             pass
         w.fail_next = None
@@ -371,9 +397,9 @@ def render(vals):
 
 
 def run_all(case):
-    """Parent-side: three pristine children with different histories."""
+    """Parent-side: four pristine children with different histories."""
     outs = []
-    for hist in ("plain", "calls", "alloc"):
+    for hist in ("plain", "calls", "alloc", "sibling"):
         v = par.pristine(run_case, case, hist)
         if par.is_exc(v):
             return {"harness": "%s %s %s" % (v[1], v[2], v[3][-800:])}
@@ -381,7 +407,7 @@ def run_all(case):
     r = outs[0]
     fails = list(r["fails"])
     if not r.get("rejected"):
-        for hist, o in zip(("calls", "alloc"), outs[1:]):
+        for hist, o in zip(("calls", "alloc", "sibling"), outs[1:]):
             if o.get("names") != r.get("names") and o.get("names") and r.get("names"):
                 fails.append(("name_depends_on_process_history:" + hist, "names %s in a plain process, %s after %s" % (r.get("names"), o.get("names"), hist)))
     r["fails"] = fails
@@ -404,7 +430,7 @@ def strategies():
         if code == "int":
             return st.one_of(st.integers(-3, 3), st.integers()).map(lambda i: {"t": "int", "v": str(i)})
         if code == "float":
-            return st.one_of(st.sampled_from([1.0, 1e0, 0.1 + 0.2, 0.3, -0.0, 0.0, 1e22, 1e-11, 2.5]), st.floats(allow_nan=False, allow_infinity=False)).map(lambda x: {"t": "float", "v": float(x).hex()})
+            return st.one_of(st.sampled_from([1.0, 1e0, 0.1 + 0.2, 0.3, -0.0, 0.0, 0.0, -0.0, 1e22, 1e-11, 2.5]), st.floats(allow_nan=False, allow_infinity=False)).map(lambda x: {"t": "float", "v": float(x).hex()})
         if code == "str":
             return strs.map(J("str"))
         if code == "bool":
@@ -481,6 +507,20 @@ def strategies():
         how = draw(st.integers(0, 9))
         if how <= 2:
             vals2 = json.loads(json.dumps(vals1))  # equal, written the same
+        elif how == 3:
+            vals2 = json.loads(json.dumps(vals1))  # equal, but every field that can be is written differently
+            for k in names:
+                v = vals1[k]
+                if v["t"] == "float" and float.fromhex(v["v"]) == 0:
+                    vals2[k] = {"t": "float", "v": (-float.fromhex(v["v"])).hex()}  # 0.0 / -0.0
+                elif v["t"] == "pref":
+                    d_ = Decimal(v["v"][0])
+                    j = PREFIX_EXPS.index(v["v"][1])
+                    j2 = max(0, min(len(PREFIX_EXPS) - 1, j + draw(st.sampled_from([-2, -1, 1, 2]))))
+                    if d_.is_finite() and len(d_.as_tuple().digits) < 45:
+                        with __import__("decimal").localcontext() as ctx:
+                            ctx.prec = 200
+                            vals2[k] = {"t": "pref", "v": [str(d_.scaleb(v["v"][1] - PREFIX_EXPS[j2])), PREFIX_EXPS[j2]]}
         elif how <= 4:
             vals2 = json.loads(json.dumps(vals1))  # differ in one field
             k = draw(st.sampled_from(names))
@@ -508,6 +548,7 @@ def strategies():
                 "form1": draw(st.sampled_from(["kw", "inst"])), "form2": draw(st.sampled_from(["kw", "inst"]))}
         if draw(st.integers(0, 5)) == 0:
             case["interrupt"] = draw(st.sampled_from(["Exception", "KeyboardInterrupt", "SystemExit", "custom_base"]))
+            case["interrupt_where"] = draw(st.sampled_from(["top", "nested"]))
         return case
 
     return cases()
@@ -540,6 +581,8 @@ def shard(idx, n, tier):
         feats = ["pattern_" + case["pattern"], "equal" if r.get("equal") else "unequal"] + ["dtype_" + c for _, c in case["fields"]]
         if case.get("interrupt"):
             feats.append("first_call_aborted_by_" + case["interrupt"])
+            if case.get("interrupt_where") == "nested":
+                feats.append("aborted_call_caught_inside_another_generator")
         if r.get("rendered_equal"):
             feats.append("rendered_equal")
         res.case(case, nontrivial(case, r), feats)
